@@ -774,3 +774,13 @@ func topLevelImp(s string) int {
 		return i
 	}
 }
+
+// guardOf: the mutex guarding field S.f ("" if none).
+func (db *SpecDB) guardOf(fq string) string {
+	for _, g := range db.Guarded {
+		if g.Struct+"."+g.Field == fq {
+			return g.MuStruct + "." + g.Mu
+		}
+	}
+	return ""
+}
